@@ -188,7 +188,9 @@ def gammastd(x, nodata, cal_start, cal_stop, a=0, b=0):
         return np.full_like(x, nodata, dtype="float64")
 
     if (a == 0) and (b == 0):
-        alpha, beta = gammafit(x[cal_start:cal_stop])
+        # nodata can be a positive value (e.g. 255): keep it out of the fit
+        cal = x[cal_start:cal_stop]
+        alpha, beta = gammafit(cal[cal != nodata])
     else:
         alpha, beta = (a, b)
 
